@@ -473,6 +473,11 @@ where
                         Ok(CoroutineState::Suspend(y, timestamp))
                     }
                     CoroutineState::Syscall(y, syscall, state) => {
+                        // The delay/cancel requests of this yield are carried by the syscall
+                        // state itself; consume them here so that they can not leak into the
+                        // next yield of any coroutine on this thread.
+                        _ = Suspender::<Yield, Param>::timestamp();
+                        _ = Suspender::<Yield, Param>::is_cancel();
                         Ok(CoroutineState::Syscall(y, syscall, state))
                     }
                     _ => Err(Error::other(format!(
